@@ -105,6 +105,7 @@ func init() {
 			}
 			panic(unsupported("Time.Unix() of a symbolic instant (division by 10^9)"))
 		}
+		m[rtPkg+".NativeDelay"] = func(fr *frame, args []value) value { return nil }
 		m[rtPkg+".TimeFromNanos"] = func(fr *frame, args []value) value { return fr.i.mkTime(args[0]) }
 		m[rtPkg+".NanosOfTime"] = func(fr *frame, args []value) value { return fr.i.timeNanos(args[0]) }
 		// The wall clock is only consulted for metrics in the code under test
